@@ -11,7 +11,7 @@ import p_names as N
 UNITS = ['Pedantic', 'CheckerTables']
 MODEL = ['Model/PedanticEval.vo']
 PRE = ('From Coq Require Import List ZArith String.\n'
-       'From PV Require Import Base.Exn Base.Values Base.Ann Base.PyCall Model.Pedantic Model.PedanticEval.\n'
+       'From PV Require Import Base.Exn Base.Values Base.Ann Base.PyCall Model.Pedantic Model.GenWrapper Model.PedanticEval.\n'
        'Import ListNotations.')
 PEDANTIC = (1, 2, 3, 4)
 
@@ -99,7 +99,25 @@ def truth_of(case):
             'recv': case['mkind'] in ('instance', 'class') and case['style'] != 'func'}
 
 
+def coq_exn(path):
+    return coq_list([coq_nat(x) for x in path])
+
+
+def coq_gen_term(case, fn):
+    def step(s):
+        return {'yield': 'SYield ', 'ret': 'SRet '}[s[0]] + U.coq_val(s[1]) if s[0] != 'raise' else 'SRaise ' + coq_exn(s[1])
+    ot = case.get('on_throw', 'propagate')
+    ot_c = 'TPropagate' if ot == 'propagate' else ('(TYield %s)' if ot[0] == 'yield' else '(TRet %s)') % U.coq_val(ot[1])
+
+    def op(o):
+        return {'next': 'OpNext', 'close': 'OpClose'}.get(o[0]) or ('(OpSend %s)' % U.coq_val(o[1]) if o[0] == 'send' else '(OpThrow %s)' % coq_exn(o[1]))
+    return (f'eval_gen {U.coq_ctx(case["ctx"])} ({coq_fn(fn, truth_of(case))}) ({coq_call(case)}) {ot_c} '
+            f'{coq_list([step(x) for x in case["script"]])} {coq_list([op(o) for o in case["ops"][:40]])}')
+
+
 def coq_term(case, fn):
+    if case['gen']:
+        return coq_gen_term(case, fn)
     mode = 1 if case['mode'] == 'require_kwargs' else 0
     return (f'eval_call {mode}%nat {U.coq_ctx(case["ctx"])} ({coq_fn(fn, truth_of(case))}) ({coq_call(case)}) '
             f'{coq_outcome(case["body"])}')
@@ -146,7 +164,25 @@ def decode_journal(xs):
     return out
 
 
-def decode(m):
+def triples(xs):
+    return [xs[i:i + 3] for i in range(0, len(xs), 3)]
+
+
+def decode_gen(m):
+    def sec(a, b):
+        i = m.index(a)
+        j = m.index(b) if b is not None else len(m)
+        return m[i + 1:j]
+    th, tg = sec(-9, -10), sec(-13, None)
+    return {'out': m[0], 'c03_args_bad': m[1], 'c04_call_ok': m[2], 'c03_result_bad': 0, 'c04_result_ok': 1, 'c05_positional': 0,
+            'journal': decode_journal(sec(-3, -5)), 'ops': triples(sec(-5, -4)), 'twin_ops': triples(sec(-4, -6)),
+            'bad_yield': sec(-6, -7), 'bad_ret': sec(-7, -8), 'bad_sent': sec(-8, -9), 'bad_throw': th or [0, 0],
+            'ok_yield': sec(-10, -11), 'ok_ret': sec(-11, -12), 'ok_sent': sec(-12, -13), 'ok_throw': tg or [1, 1]}
+
+
+def decode(m, case=None):
+    if case is not None and case['gen']:
+        return decode_gen(m)
     a = m.index(-3)
     b = m.index(-4)
     return {'out': m[0], 'c03_args_bad': m[1], 'c03_result_bad': m[2], 'c04_call_ok': m[3], 'c04_result_ok': m[4],
@@ -490,7 +526,7 @@ def gen_cases(rng, tier, scale=1):
     for i in range(n):
         r = rng.random()
         stream = 'valid' if r < 0.45 else 'near' if r < 0.90 else 'malformed'
-        cases.append(gen_case(rng, stream))
+        cases.append(gen_gen_case(rng, stream) if rng.random() < 0.18 else gen_case(rng, stream))
     return cases
 
 
@@ -511,6 +547,8 @@ def base_case(**kw):
 # ------------------------------------------------------------------------------------------ judges
 def judge_corr(case, i, m):
     """implementation vs model; returns None or a description of the disagreement"""
+    if case['gen']:
+        return gen_judge_corr(case, i, m)
     if i['out'] != m['out']:
         return f'outcome: implementation {i["out"]} ({i.get("exc")}), model {m["out"]}'
     if not journal_agrees(i['journal'], m['journal']):
@@ -525,6 +563,8 @@ def has_varpos(fn):
 def judge_c03(case, i, m):
     if case['mode'] != 'pedantic':
         return None
+    if case['gen']:
+        return gen_judge_c03(case, i, m)
     if m['c03_args_bad']:
         if i['journal']:
             return 'a supplied value does not conform to its annotation, but the body ran'
@@ -540,6 +580,8 @@ def judge_c03(case, i, m):
 
 
 def judge_c04(case, i, m):
+    if case['gen']:
+        return gen_judge_c04(case, i, m)
     if case['mode'] != 'pedantic' or not (m['c04_call_ok'] and m['c04_result_ok']):
         return None
     if i['out'] != m['twin_out']:
@@ -636,7 +678,7 @@ def evaluate(ck, cases):
     model = ck.coq_eval(PRE, terms) if ck.model_ok else [None] * len(terms)
     out = [(c, i, None) for c, i in zip(cases, impl)]
     for k, m in zip(idx, model):
-        out[k] = (cases[k], impl[k], decode(m) if m is not None else None)
+        out[k] = (cases[k], impl[k], decode(m, cases[k]) if m is not None else None)
     return out
 
 
@@ -715,3 +757,175 @@ def run(pid, props, tier, seed, replay=None):
                       'translator/t_pedantic.py, translator/t_checker.py (Python ast -> Gen/Pedantic.v, Gen/CheckerTables.v)',
                       'Base/PyCall.v (CPython argument binding), Model/Pedantic.v, Model/GenWrapper.v (hand-written, tied by correspondence and AST locks)',
                       'harness/w_pedantic.py, harness/p_common.py, harness/universe.py (render / reify / canonicalisation glue)'])
+
+
+# ------------------------------------------------------------------------------------------ generator functions
+def no_fwd(a):
+    if a is None or a[0] in ('fwd', 'str'):
+        return False
+    kids = a[2] if a[0] == 'union' else a[3] if a[0] == 'gen' else [a[2]] if a[0] == 'tuplevar' else [a[1]] if a[0] == 'newtype' else []
+    return all(no_fwd(x) for x in kids)
+
+
+def plain_ann_val(rng, depth=None):
+    for _ in range(30):
+        a, v = gen_ann_val(rng, depth)
+        if no_fwd(a) and v[0] != 'iter':
+            return a, v
+    return ['cls', 'int'], ['int', 1]
+
+
+def gen_gen_case(rng, stream):
+    c, kind = gen_shape(rng, rng.choice(['func', 'func', 'func', 'class_deco', 'method_direct']))
+    if c['mkind'] not in ('plain', 'instance'):
+        c, kind = gen_shape(rng, 'func')
+    c.update({'async': False, 'gen': True, 'ctx': GC.CTX, 'stream': stream, 'mut': 'none', 'text': 'none', 'body': ['ret', ['none']]})
+    if c.get('self_kw') or c['recv_name'] == 14:
+        c.pop('self_kw', None); c['explicit_self'] = c.get('via') == 'class'; c['recv_name'] = 0 if c['mkind'] == 'instance' else None
+    params, vals = gen_signature(rng)
+    params = [p for p in params if p['kind'] != 'posonly'][:3]
+    c['params'] = params
+    c['kwargs'] = [[p['name'], vals[p['name']]] for p in params if p['kind'] in ('pos', 'kwonly') and (p['default'] is None or rng.random() < 0.5)]
+    c['args'] = []
+    Y, yv = plain_ann_val(rng)
+    form = rng.choice(['Generator'] * 6 + ['Iterator', 'Iterable'])
+    if form == 'Generator':
+        S, sv = plain_ann_val(rng, 0)
+        if rng.random() < 0.5:       # so that next() is a conforming send(None)
+            S = ['union', 'typing', [S, ['cls', 'NoneType']]] if S != ['cls', 'NoneType'] and S[0] != 'none' else S
+        R, rv = plain_ann_val(rng, rng.choice([0, 1]))
+        c['ret'] = ['gen', 'typing', 'Generator', [Y, S, R]]
+    else:
+        S, R, rv = ['none'], ['none'], ['none']
+        c['ret'] = ['gen', 'typing', form, [Y]]
+    script = []
+    for _ in range(rng.choice([0, 1, 2, 2, 3, 4])):
+        script.append(['yield', conf(rng, Y) or yv])
+    script.append(rng.choice([['ret', conf(rng, R) or rv]] * 4 + [['ret', ['none']], ['raise', rng.choice(BODY_EXC)]]))
+    ops = []
+    for k in range(rng.choice([1, 2, 3, 4, 5, 6])):
+        r = rng.random()
+        if k == 0 or r < 0.35:
+            ops.append(['next'])
+        elif r < 0.8:
+            ops.append(['send', conf(rng, S) or ['none']])
+        elif r < 0.93:
+            ops.append(['throw', rng.choice([[0, 1], [0, 20], [0, 2]])])
+        else:
+            ops.append(['close'])
+    c['script'], c['ops'] = script, ops
+    r = rng.random()
+    c['on_throw'] = 'propagate' if r < 0.5 else ['yield', conf(rng, Y) or yv] if r < 0.8 else ['ret', conf(rng, R) or rv]
+    if stream == 'near':
+        opts = ['yield', 'yield', 'ret', 'sent', 'sent', 'throw_obj', 'kwval']
+        rng.shuffle(opts)
+        for o in opts:
+            if o == 'yield' and any(s[0] == 'yield' for s in script):
+                i = rng.choice([i for i, s in enumerate(script) if s[0] == 'yield'])
+                w = wrong(rng, Y, script[i][1])
+                if w is not None and w[0] != 'iter':
+                    script[i][1] = w; c['mut'] = 'yield'; break
+            if o == 'ret' and script[-1][0] == 'ret':
+                w = wrong(rng, R, script[-1][1])
+                if w is not None:
+                    script[-1][1] = w; c['mut'] = 'gen-return'; break
+            if o == 'sent' and any(x[0] == 'send' for x in ops):
+                i = rng.choice([i for i, x in enumerate(ops) if x[0] == 'send'])
+                w = wrong(rng, S, ops[i][1])
+                if w is not None:
+                    ops[i][1] = w; c['mut'] = 'sent'; break
+            if o == 'throw_obj' and c['on_throw'] != 'propagate':
+                w = wrong(rng, Y if c['on_throw'][0] == 'yield' else R, c['on_throw'][1])
+                if w is not None:
+                    c['on_throw'][1] = w; c['mut'] = 'throw_obj'
+                    if not any(x[0] == 'throw' for x in ops):
+                        ops.insert(min(1, len(ops)), ['throw', [0, 1]])
+                    break
+            if o == 'kwval' and c['kwargs']:
+                i = rng.randrange(len(c['kwargs']))
+                p = [q for q in params if q['name'] == c['kwargs'][i][0]][0]
+                w = wrong(rng, p['ann'], c['kwargs'][i][1])
+                if w is not None:
+                    c['kwargs'][i][1] = w; c['mut'] = 'kwval'; break
+    elif stream == 'malformed':
+        c['mut'] = 'gen_ret'
+        c['ret'] = rng.choice([['cls', 'int'], ['gen', 'typing', 'List', [Y]], ['bare', 'Generator'], ['bare', 'Iterator'], None, ['any'],
+                               ['gen', 'typing', 'Sequence', [Y]], ['union', 'typing', [['gen', 'typing', 'Iterator', [Y]], ['cls', 'NoneType']]]])
+    return c
+
+
+def canon_ident(case, k):
+    """identity of a script object -> the first script object with an equal value (small ints, instances ... are shared)"""
+    script = case['script']
+    if k == 1000 and case.get('on_throw', 'propagate') != 'propagate':
+        val = case['on_throw'][1]
+    elif 0 <= k < len(script) and script[k][0] != 'raise':
+        val = script[k][1]
+    else:
+        return k
+    if val == ['none']:
+        return -1
+    for j, s in enumerate(script):
+        if s[0] != 'raise' and s[1] == val:
+            return j
+    return k
+
+
+def canon_ops(case, ops):
+    return [[o[0], o[1], canon_ident(case, o[2]) if o[0] in (0, 1) else o[2]] for o in ops]
+
+
+def initialized_before(case, idx):
+    return any(o[0] in ('next', 'send') for o in case['ops'][:idx])
+
+
+def gen_judge_corr(case, i, m):
+    if i['out'] != m['out']:
+        return f'outcome of the call: implementation {i["out"]} ({i.get("exc")}), model {m["out"]}'
+    if i['out'] == 0:
+        if canon_ops(case, i['ops']) != canon_ops(case, m['ops']):
+            return f'operations: implementation {i["ops"]}, model {m["ops"]}'
+        if not journal_agrees(i['journal'], m['journal']):
+            return f'journal: implementation {json.dumps(i["journal"])[:300]}, model {json.dumps(m["journal"])[:300]}'
+    return None
+
+
+def gen_judge_c03(case, i, m):
+    if m['c03_args_bad']:
+        if i['journal']:
+            return 'a supplied value does not conform to its annotation, but the generator body ran'
+        if i['out'] != 1 and not case['args']:
+            return f'a supplied value does not conform: PedanticTypeCheckException expected, got outcome {i["out"]} ({i.get("exc")})'
+    if i['out'] != 0:
+        return None
+    for idx, (kind, code, ident) in enumerate(i['ops']):
+        op = case['ops'][idx]
+        if kind == 0 and ((0 <= ident < 1000 and m['bad_yield'][ident]) or (ident == 1000 and m['bad_throw'][0])):
+            return f'operation {idx} ({op[0]}): a yielded value that does not conform to the yield type was handed to the caller'
+        if kind == 1 and ((0 <= ident < 1000 and m['bad_ret'][ident]) or (ident == 1000 and m['bad_throw'][1])):
+            return f'operation {idx} ({op[0]}): the generator returned a value that does not conform to the return type; the caller got StopIteration with it'
+        if op[0] == 'send' and m['bad_sent'][idx] and initialized_before(case, idx) and not (kind == 2 and code == 1):
+            return f'operation {idx}: a sent value that does not conform to the send type was not rejected with PedanticTypeCheckException'
+    return None
+
+
+def gen_judge_c04(case, i, m):
+    if not m['c04_call_ok'] or case['mode'] != 'pedantic':
+        return None
+    script = case['script']
+    rt = case['ret']
+    if not (rt and rt[0] == 'gen' and rt[1] == 'typing' and rt[2] in ('Generator', 'Iterator', 'Iterable') and len(rt[3]) in (1, 3)):
+        return None            # not a generator annotation: C06 territory
+    if m['out'] != 0:          # the model says the call itself fails: only the call can be judged
+        return None if i['out'] == 0 else f'conforming keyword call of a generator function: outcome {i["out"]} ({i.get("exc")})'
+    ok = all((m['ok_yield'][k] if s[0] == 'yield' else m['ok_ret'][k] if s[0] == 'ret' else 1) for k, s in enumerate(script))
+    ok = ok and all(m['ok_sent'][idx] for idx, o in enumerate(case['ops']) if o[0] in ('send', 'next') and initialized_before(case, idx))
+    if case.get('on_throw', 'propagate') != 'propagate':
+        ok = ok and m['ok_throw'][0 if case['on_throw'][0] == 'yield' else 1]
+    if not ok:
+        return None
+    if i['out'] != 0:
+        return f'conforming keyword call of a generator function: outcome {i["out"]} ({i.get("exc")})'
+    if canon_ops(case, i['ops']) != canon_ops(case, m['twin_ops']):
+        return f'conforming generator: the caller observed {i["ops"]}, the undecorated generator gives {m["twin_ops"]}'
+    return None
